@@ -627,6 +627,13 @@ def main():
         return check(a[1], tier)
     if a[0] == "replay":
         return replay(a[1])
+    if a[0] == "setup":
+        # everything the quick tier needs, built once from files on disk
+        build(["std", "nostd", "pow2", "radix", "compact"])
+        for v in ("std", "radix", "pow2"):
+            miri_build(v)
+        print("setup: simulator variants built (native: std nostd pow2 radix compact; interpreter: std radix pow2)")
+        return 0
     if a[0] == "build":
         build(a[1:] or ["std", "nostd", "pow2", "radix", "compact"])
         return 0
